@@ -611,11 +611,12 @@ Fixpoint consume_cap (tau : str) (m : tmode) (cap : nat) (n_targets : option nat
   match g with
   | [] => CAll
   | t :: g' =>
-    match cap_allows tau cap st t with
-    | None => CErr (S k)
-    | Some false => consume_cap tau m cap n_targets g' st (S k)
-    | Some true =>
-      if relevant tau m t then
+    (* the wrapped strategy is asked first, then the class counters (as [Tracker.track_cap]) *)
+    if relevant tau m t then
+      match cap_allows tau cap st t with
+      | None => CErr (S k)
+      | Some false => consume_cap tau m cap n_targets g' st (S k)
+      | Some true =>
         match to t with
         | OL _ _ => CErr (S k)
         | ON o =>
@@ -629,8 +630,8 @@ Fixpoint consume_cap (tau : str) (m : tmode) (cap : nat) (n_targets : option nat
           | None => consume_cap tau m cap n_targets g' st' (S k)
           end
         end
-      else consume_cap tau m cap n_targets g' st (S k)
-    end
+      end
+    else consume_cap tau m cap n_targets g' st (S k)
   end.
 
 Definition consumption (tau : str) (m : tmode) (cap : Z) (g : list triple) : consume :=
